@@ -199,10 +199,14 @@ def run (v : Val) : Option Val :=
   match v with
   | .list [i, .list os] => do
     let i ← decI i
-    if os.length ≠ i.ops.length then none
-    let o ← (i.ops.zip os).mapM fun (op, x) => decOut op x
     let m := model i
-    some (.list [.list (m.map encOut), .bool (holdsOn i o), .bool (holdsOn i m)])
+    -- an observation of the wrong length or with an answer of the wrong kind is outside the
+    -- observation type: the property cannot hold on it
+    let bad := some (.list [.list (m.map encOut), .bool false, .bool (holdsOn i m), .exc "ObsOutsideType"])
+    if os.length ≠ i.ops.length then bad else
+    match (i.ops.zip os).mapM fun (op, x) => decOut op x with
+    | some o => some (.list [.list (m.map encOut), .bool (holdsOn i o), .bool (holdsOn i m)])
+    | none => bad
   | _ => none
 
 def decTObs : Val → Option TObs
